@@ -148,7 +148,13 @@ class Run:
             else:
                 exp = kw.get('v')
         for i in range(c['nreads']):
-            rec = lib.read4(w)
+            if i % 2 == 1:
+                # every other read is made by a thread started after the worker's death (a supervisor thread, a pool's clean-up
+                # thread): it may have been given the recycled thread identifier of the dead worker thread
+                r = lib.call_with_deadline(lib.read4, 600.0, w)
+                rec = r[1] if r[0] == 'ok' else {a: {'RAISED': 'hung-or-failed', 'msg': r[0]} for a in ('is_alive', 'has_error', 'result', 'error')}
+            else:
+                rec = lib.read4(w)
             ro = rec.pop('_result_obj', None)
             if not lib.is_persistent(kind) and isinstance(rec.get('result'), dict) and 'none' in rec['result']:
                 try:
